@@ -112,7 +112,7 @@ Definition limits_respected (i : input) (o : obs) : bool :=
 
 (* (3) losslessness: when the body IS the encoding of a form in the stated domain,
    the result is exactly that form *)
-Definition spec_applies (full : bool) (i : input) : bool :=
+Definition spec_applies (i : input) : bool :=
   let '(entry, hd, body, ce, c, sp) := i in
   match sp with
   | SNone => false
@@ -120,7 +120,7 @@ Definition spec_applies (full : bool) (i : input) : bool :=
       entry && str_eqb hd s_urlencoded && negb ce && forallb pair_ok ps
       && str_eqb (TV.C21.Model.encode_pairs ps) body
   | SMulti b e ps =>
-      boundary_ok b && forallb (if full then part_ok_full b else part_ok b) ps && config_ok (cfg_of c) ps
+      boundary_ok b && forallb (part_ok_full b) ps && config_ok (cfg_of c) ps
       && (if entry then str_eqb hd (multipart_content_type b) && negb ce else str_eqb hd b)
       && match encode_multipart b e ps with
          | Some x => str_eqb x body
@@ -133,14 +133,69 @@ Definition spec_result (sp : spec) : obs :=
   | SUrl ps => out (Ok (TV.C21.Model.group_pairs ps, []))
   | SMulti _ _ ps => out (Ok (expected ps))
   end.
-Definition lossless (full : bool) (i : input) (o : obs) : bool :=
+Definition lossless (i : input) (o : obs) : bool :=
   let '(_, _, _, _, _, sp) := i in
-  if spec_applies full i then obs_eqb o (spec_result sp) else true.
+  if spec_applies i then obs_eqb o (spec_result sp) else true.
 
-(* the property, at full strength (every non-empty name / filename) *)
+(* the property *)
 Definition check_case (i : input) (o : obs) : bool :=
-  clean o && limits_respected i o && lossless true i o.
+  clean o && limits_respected i o && lossless i o.
 
-(* the same with the open finding D3 carved out: what the code as it is satisfies *)
-Definition check_case_d3 (i : input) (o : obs) : bool :=
-  clean o && limits_respected i o && lossless false i o.
+(* ------------------------------------------------------------------ *)
+(* third entry: HTTPServerRequest(...)._parse_body()                   *)
+(* ------------------------------------------------------------------ *)
+Inductive rspec :=
+| RNone
+| RUrl (qs bs : list (list N * list N)).     (* the query / the body are the encodings of these pairs *)
+
+Inductive tcase :=
+| CForm (i : input)
+| CReq (query : list N) (hdrs : list (str * str)) (body : list N) (c : bool * N * N) (sp : rspec).
+
+Definition oreq (r : req_result) : obs :=
+  match r with
+  | ReqOk a q b f => OList [oargs a; oargs q; oargs b; ofiles f]
+  | ReqErr e => err_tag e
+  | ReqInitErr => OTag "InitError"
+  end.
+
+Definition run_tcase (t : tcase) : obs :=
+  match t with
+  | CForm i => run_case i
+  | CReq q h b c _ => oreq (request_parse (cfg_of c) q h b)
+  end.
+
+Definition clean_req (o : obs) : bool :=
+  match o with
+  | OList [OList _; OList _; OList _; OList _] => true
+  | _ => obs_eqb o (OTag "HTTPInputError") || obs_eqb o (OTag "OutOfModel")
+         || obs_eqb o (OTag "InitError")     (* the request object could not be built: not an outcome of _parse_body *)
+  end.
+
+Definition rspec_applies (t : tcase) : bool :=
+  match t with
+  | CReq q h b _ (RUrl qs bs) =>
+      forallb pair_ok qs && forallb pair_ok bs
+      && str_eqb q (TV.C21.Model.encode_pairs qs) && str_eqb b (TV.C21.Model.encode_pairs bs)
+      && match h with
+         | [(n, v)] => str_eqb n s_content_type && str_eqb v s_urlencoded
+         | _ => false
+         end
+  | _ => false
+  end.
+
+Definition rspec_result (qs bs : list (list N * list N)) : obs :=
+  oreq (ReqOk (TV.C21.Model.group_pairs (qs ++ bs)) (TV.C21.Model.group_pairs qs) (TV.C21.Model.group_pairs bs) []).
+
+(* the property at the request level: clean failure of _parse_body, and query + form pairs
+   arrive as if they had been one list *)
+Definition check_tcase (t : tcase) (o : obs) : bool :=
+  match t with
+  | CForm i => check_case i o
+  | CReq _ _ _ _ sp =>
+      clean_req o
+      && match sp with
+         | RUrl qs bs => if rspec_applies t then obs_eqb o (rspec_result qs bs) else true
+         | RNone => true
+         end
+  end.
